@@ -34,6 +34,9 @@ type Exporter struct {
 	tree   *ImmutableTree
 	ch     chan *ExportNode
 	cancel context.CancelFunc
+	// err is the error that ended the traversal early, if any. It is written
+	// before ch is closed and read after ch has been found closed.
+	err error
 }
 
 // NewExporter creates a new Exporter. Callers must call Close() when done.
@@ -61,7 +64,19 @@ func newExporter(tree *ImmutableTree) (*Exporter, error) {
 
 // export exports nodes
 func (e *Exporter) export(ctx context.Context) {
-	e.tree.root.traversePost(e.tree, true, func(node *Node) bool {
+	defer close(e.ch)
+	// depth-first post-order traversal; unlike traversePost it does not drop
+	// the error of a node that fails to load
+	t := e.tree.root.newTraversal(e.tree, nil, nil, true, false, true)
+	for {
+		node, err := t.next()
+		if err != nil {
+			e.err = err
+			return
+		}
+		if node == nil {
+			return
+		}
 		exportNode := &ExportNode{
 			Key:     node.key,
 			Value:   node.value,
@@ -71,18 +86,20 @@ func (e *Exporter) export(ctx context.Context) {
 
 		select {
 		case e.ch <- exportNode:
-			return false
 		case <-ctx.Done():
-			return true
+			return
 		}
-	})
-	close(e.ch)
+	}
 }
 
 // Next fetches the next exported node, or returns ExportDone when done.
 func (e *Exporter) Next() (*ExportNode, error) {
 	if exportNode, ok := <-e.ch; ok {
 		return exportNode, nil
+	}
+	if e.err != nil {
+		// the export ended early: the stream is not complete
+		return nil, e.err
 	}
 	return nil, ErrorExportDone
 }
